@@ -22,7 +22,7 @@ for p in sorted(glob.glob(f'{V}/checks/C*.json')):
         'level_claimed': {
             'category': 'model_checking',
             'text': s.get('level_text', ''),
-            'design_ref': s.get('design_ref', f'DESIGN.md §5 {pid}'),
+            'design_ref': s.get('design_ref', f'DESIGN.md §4 {pid}'),
         },
         'level_note': s.get('level_note', '') + (' Outside the bounds: ' + outside if outside else ''),
         'technique': s.get('technique', 'bounded symbolic execution of the go/ssa form of the real code; every branch and assertion decided by an SMT solver (z3/cvc5, QF_BV); counterexamples replayed against the real build'),
